@@ -623,6 +623,22 @@ Proof. intros Ev. split.
       apply nz_false in Ez. subst v. unfold Qcdiv. ring.
 Qed.
 
+Lemma sample_ext o a b y x :
+  qnr a = qnr b -> qnc a = qnc b -> (forall i j, qget a i j = qget b i j) -> sample o a y x = sample o b y x.
+Proof. intros En Em Eg. unfold sample, zero_cluster. cbv zeta. rewrite En, Em.
+  destruct (node (qnr b) y); [destruct (node (qnc b) x)|]; rewrite ?Eg; reflexivity. Qed.
+
+(* no hidden state: the samples util.rescale produces depend only on the CURRENT shape and sample values of its
+   input (two arrays that agree sample by sample give results that agree sample by sample, whatever happened before) *)
+Theorem result_depends_on_current_samples_only o a b s r r' :
+  qnr a = qnr b -> qnc a = qnc b -> (forall i j, qget a i j = qget b i j) ->
+  util_rescale o a s = Ok r -> util_rescale o b s = Ok r' ->
+  onr r = onr r' /\ onc r = onc r' /\ forall i j, oget r i j = oget r' i j.
+Proof. intros En Em Eg Ha Hb.
+  apply util_rescale_ok in Ha as (_ & A1 & A2 & A3). apply util_rescale_ok in Hb as (_ & B1 & B2 & B3).
+  assert (E1 : onr r = onr r') by (rewrite A1, B1, En; reflexivity). assert (E2 : onc r = onc r') by (rewrite A2, B2, Em; reflexivity).
+  repeat split; auto. intros i j. rewrite A3, B3, E1, E2, En, Em. apply sample_ext; assumption. Qed.
+
 Lemma ceil_spec n s :
   zq n * s <= zq (rescale_shape n s) /\ zq (rescale_shape n s) < zq n * s + 1 /\
   (forall c : Z, zq n * s <= zq c -> zq c < zq n * s + 1 -> rescale_shape n s = c) /\
